@@ -44,9 +44,12 @@ payloads = st.one_of(
     st.text(_text_alphabet, min_size=25, max_size=200).map(_clean),
 )
 
+LONG_PAYLOADS = ("12345678901234567890123456", "é" * 20, "40.741894,-73.989311,12;more;fields;follow", "L" * 51, "x" * 300)
 short_payloads = st.one_of(
     st.sampled_from(("", "0", "7", "x;y", "20.5")),
+    st.sampled_from(("", "0", "7", "x;y", "20.5")),
     st.text(st.sampled_from("01;a é"), max_size=5).map(_clean),
+    st.sampled_from(LONG_PAYLOADS),
 )
 
 
